@@ -187,10 +187,13 @@ def run_pair_shard(shard, fields):
     from mc import framework as fw
 
     env = dict(os.environ, NUMBA_NUM_THREADS="1", VERIF_ROOT=fw.ROOT)
-    p = subprocess.run([sys.executable, "-W", "ignore", os.path.join(fw.ROOT, "mc", "pairhist.py"), str(shard["a"]), "1" if shard.get("force") else "0"],
-                       capture_output=True, text=True, env=env, cwd=fw.ROOT, timeout=3600)
+    cmd = [sys.executable, "-W", "ignore", os.path.join(fw.ROOT, "mc", "pairhist.py"), str(shard["a"]), "1" if shard.get("force") else "0"]
+    p = subprocess.run(cmd, capture_output=True, text=True, env=env, cwd=fw.ROOT, timeout=3600)
+    if p.returncode != 0 and not p.stderr.strip():
+        # died without a Python traceback (signal): not a verdict about the library - try once more
+        p = subprocess.run(cmd, capture_output=True, text=True, env=env, cwd=fw.ROOT, timeout=3600)
     if p.returncode != 0:
-        raise RuntimeError(f"pair-history worker failed: {p.stderr[-2000:]}")
+        raise RuntimeError(f"pair-history worker failed (rc={p.returncode}): {p.stderr[-2000:]}")
     res = json.loads(p.stdout.splitlines()[-1])
     cfgs = configs(bool(shard.get("force")))
     a = shard["a"]
